@@ -191,6 +191,18 @@ chk("C17",
     "responses other than the flat one are not covered.",
     "TLA+ kernel spec (Psd) model-checked with TLC; one implementation test per TLC case; identity-based replays on seeded noise", "DESIGN.md#c17")
 
+chk("C14",
+    "Exact geometry in TLA+: Sutherland-Hodgman clipping of a convex boundary by the perpendicular bisectors over normalised rationals, "
+    "shoelace areas; TLC checks non-negativity, sum to one, independence of sensor order, translation and scaling on every lattice "
+    "layout (sensors inside, on the edge, outside; square and pentagon) and exports the exact area fractions; each layout goes through "
+    "HvsrSpatial.spatial_weights and bounded_voronoi, also permuted, translated (up to 4e4) and scaled. Monte-Carlo: TLC computes the exact "
+    "weighted mean/variance of scripted realisations and checks weight-scale invariance, the zero-std closed form and bounds; "
+    "montecarlo_fn is driven with a scripted generator returning exactly those realisations (four distribution pairs) and with seeded "
+    "generators for reproducibility.",
+    "Trusted: TLC; spec/Voronoi.tla, McStats.tla. Lattice layouts only for the exact areas (<= 5 sensors); layouts with fewer than 4 "
+    "sensors inside or all retained sensors collinear are not judged; 'all seeds' is sampled.",
+    "TLA+ kernel specs (Voronoi, McStats) model-checked with TLC; one implementation test per TLC case; scripted random generator", "DESIGN.md#c14")
+
 def main():
     man = dict(
         version=1,
